@@ -218,6 +218,7 @@ def correspond(ctx):
     # the same call on their dense images (tools/corr/c19_base.py; the same calls are the C19 guard-page probes)
     from corr import c19_base
     nprod = c19_base.base_probes(ctx, random.Random(ctx.seed * 977 + 16), ctx.build, 'C16')
+    nprod += c19_base.ctor_probes(ctx, random.Random(ctx.seed * 971 + 16), ctx.build, 'C16')
     ctx.cov.update({'evaluations': len(lines) + nprod, 'distinct_nontrivial': len(set(lines)),
                     'rule': '%d sequences of up to 13 operations on named sparse matrices (0..4 x 0..4, duplicates in triplets, explicit zeros, empty rows and '
                             'columns): construction, + - *, scalar multiplication, negation, transpose, indexed assignment (negative indices), element '
